@@ -354,6 +354,49 @@ pub fn gen_phys_graph(t: &mut Tape, max_e: usize, max_l: usize, min_omega: f64, 
     Some(g)
 }
 
+/// accepted physical graph with 13 or 14 edges (more than 12, not a multiple of 12) and 1..3 loops: long chains and
+/// trees with a few chords. Rare class of the sampling properties (the table has 2^13 / 2^14 entries).
+pub fn gen_phys_graph_large(t: &mut Tape, dmax: usize) -> Option<G> {
+    let ne = *t.pick(&[13usize, 13, 14]);
+    let nl = t.range(1, 3);
+    let nv = ne - nl + 1;
+    let chainy = t.chance(0.5);
+    let mut edges: Vec<(u8, u8)> = vec![];
+    for v in 1..nv {
+        let u = if chainy && t.chance(0.8) { v - 1 } else { t.below(v) };
+        edges.push(if t.bool() { (u as u8, v as u8) } else { (v as u8, u as u8) });
+    }
+    for _ in 0..nl {
+        let a = t.below(nv);
+        let mut b = t.below(nv);
+        if a == b && t.chance(0.7) {
+            b = (a + 1 + t.below(nv - 1)) % nv;
+        }
+        edges.push((a as u8, b as u8));
+    }
+    if t.bool() {
+        shuffle(t, &mut edges);
+    }
+    let mass_mode = t.weighted(&[0.6, 0.25, 0.15]);
+    let mut massive: Vec<bool> = (0..ne).map(|_| match mass_mode { 0 => true, 1 => t.bool(), _ => false }).collect();
+    for e in 0..ne {
+        if edges[e].0 == edges[e].1 {
+            massive[e] = true;
+        }
+    }
+    let mut vs: Vec<u8> = (0..nv as u8).collect();
+    shuffle(t, &mut vs);
+    let k = if massive.iter().all(|&m| m) { *t.pick(&[0usize, 2, 3, nv]) } else { nv };
+    let externals = vs[..k].to_vec();
+    let d = t.range(1, dmax);
+    let mut g = G { edges, massive, weights: vec![1.0; ne], externals, d };
+    let dyadic = !t.chance(0.3);
+    if !fit_weights(t, &mut g, dyadic, 0.15, true, 8) {
+        return None;
+    }
+    Some(g)
+}
+
 #[derive(Clone, Debug, Serialize, Deserialize, PartialEq)]
 pub struct Kin {
     /// loop signature, sig[e][l]
@@ -872,8 +915,37 @@ pub fn gen_phys(t: &mut Tape, o: &PhysOpts) -> Option<Phys> {
     Some(Phys { g, kin, x, classes: classes.into_iter().map(String::from).collect() })
 }
 
+/// sampling case on an accepted 13/14-edge graph (see `gen_phys_graph_large`)
+pub fn gen_phys_large(t: &mut Tape, max_ops: usize, profile: &PointProfile) -> Option<Phys> {
+    let g = gen_phys_graph_large(t, 6)?;
+    let kin = gen_kin(t, &g, max_ops);
+    let (x, mut classes) = gen_point(t, &g, profile);
+    classes.push("graph:13-14-edges");
+    Some(Phys { g, kin, x, classes: classes.into_iter().map(String::from).collect() })
+}
+
 /// developer aid: acceptance statistics of the physical-graph generator
 pub fn genstats() {
+    if std::env::var("GENSTATS_LARGE").is_ok() {
+        let tapes = crate::engine::sample_tapes("genstats-large", 1, 40, 400);
+        let (mut ok, mut rej) = (0, 0);
+        for tp in &tapes {
+            let mut t = Tape::new(tp);
+            let t0 = std::time::Instant::now();
+            match gen_phys_graph_large(&mut t, 6) {
+                Some(g) => {
+                    ok += 1;
+                    let tg = t0.elapsed();
+                    let t1 = std::time::Instant::now();
+                    let acc = crate::sut::build::<3>(&G { d: 3, ..g.clone() }, vec![vec![0isize; g.num_loops()]; g.nedges()]).is_ok();
+                    eprintln!("E={} L={} D={} gen {:?} build(D=3) {:?} built={acc}", g.nedges(), g.num_loops(), g.d, tg, t1.elapsed());
+                }
+                None => rej += 1,
+            }
+        }
+        eprintln!("ok {ok} rejected {rej}");
+        return;
+    }
     let tapes = crate::engine::sample_tapes("genstats", 1, 20000, 200);
     let mut tot = std::collections::BTreeMap::<String, (u32, u32)>::new();
     for tp in &tapes {
